@@ -2,8 +2,38 @@
 from . import recv_common
 
 
+def after_own_close(ctx):
+    """Pings are answered for as long as the peer may send them: also after the application has sent its own close
+    frame (send_close) and keeps reading until the peer's close arrives.  Connection-level scenarios of C08's world."""
+    import itertools
+    from . import c08
+    scs = []
+    n = 0
+    for sv in ("pings_data_close", "ping_flood", "data_ping_close_eof"):
+        for pre in ([], ["send"], ["ping"], ["recv"], ["send_close"]):
+            for closer in ("send_close", "send_close_bad"):
+                for k in (2, 4, 7):
+                    n += 1
+                    scs.append({"tid": "ac%d" % n, "server": sv, "calls": pre + [closer] + ["recv"] * k})
+    for sc, b, trace in c08.validate(ctx, scs, "after_own_close"):
+        why = b["why"]
+        owner = why.split(".")[0]
+        if owner == "harness":
+            ctx.machinery_error = "harness inconsistency %s in %s" % (why, sc)
+        elif owner == "C07" or why in ("C08.open_connection_reported_closed", "C08.raised_although_connection_alive"):
+            ctx.deviation(None, "calls %s against server '%s': event %d breaks %s; %s" % (
+                sc["calls"], sc["server"], b["at"], why,
+                [{k: v for k, v in e.items() if k in ("ev", "api", "t", "cls", "bytes")} for e in trace[max(0, b["at"] - 4):b["at"] + 1]]),
+                {"scenario": sc, "clause": why, "at": b["at"], "trace": trace})
+        else:
+            ctx.remark("clause %s failed in a C07 connection scenario; judged by ./check %s" % (why, owner))
+    for sc in scs:
+        ctx.case(("after_own_close", sc["server"], tuple(sc["calls"])))
+
+
 def main(ctx):
     recv_common.run_for(ctx, "C07")
+    after_own_close(ctx)
     ctx.trusted += ["TLC 1.8 / CommunityModules", "harness: scripted transport + projection (vf/recvworld.py)",
                     "independent frame builder vf/wire.py"]
     ctx.assumptions += ["transport behaviour is simulated (scripted cuts, timeouts, EOF, reset)"]
